@@ -7,6 +7,10 @@ def decode(sel):
     t, v = sel["t"], sel["v"]
     if t == "int":
         return int(v)
+    if t == "npint":  # numpy integer scalar (what iterating over an index array yields)
+        return np.int64(v)
+    if t == "npint32":
+        return np.int32(v)
     if t == "slice":
         return slice(*v)
     if t == "list":
@@ -32,7 +36,11 @@ def st_slice(n, neg_step=True):
 
 
 def st_int(n):
-    return st.builds(lambda v: {"t": "int", "v": v}, st.integers(-n, n - 1))
+    """Python and NumPy integer scalars, mostly inside [-n, n), sometimes just outside (NumPy raises IndexError there)."""
+    inside = st.integers(-n, n - 1) if n > 0 else st.just(0)
+    outside = st.sampled_from([n, n + 1, n + 9, -n - 1, -n - 2, -2 * n - 1, -n - 17])
+    val = st.one_of(inside, inside, inside, inside, st.sampled_from([0, -1, max(n - 1, 0), -n]), outside)
+    return st.builds(lambda v, t: {"t": t, "v": v}, val, st.sampled_from(["int", "int", "int", "npint", "npint32"]))
 
 
 def st_list(n, max_size=12):
